@@ -7,6 +7,7 @@ open Momo.Pool
   All addresses in op and answer lines are offsets from the arena start.
 
   layout suite:  consts | cbs size A N | gba size | cfg S A N C | nb base | nbl base | blk addr | nb1 base
+                 | sizemax | params S A N (the constructor's pvCheckParams: ok | E:invalid_argument | E:length)
   dll suite:     pinit k | pset i prev next | pmove head b | punlink b | pappend head nb | pmerge thisHead otherHead
                  | pwalk head (next-walk from the head, prev-walk from its predecessor) | pdall head (order in which
                  DeallocateAll gives the buffers back)
@@ -77,6 +78,15 @@ def dumpHeap (s : St) : String :=
 
 def optOf (x : Int) : Option Int := if x < 0 then none else some x
 
+/-- `UIntConst::maxSize` = `SIZE_MAX` of the 64-bit build (the harness op `sizemax` compares it with the build) -/
+def sizeMax : Int := 18446744073709551615
+
+/-- what the constructor's `pvCheckParams` (440-449) does with `CheckMode::exception`: the five `MOMO_CHECK`s
+    (`Params.Legal`) come first (`std::invalid_argument`), then the overflow test `blockSize > maxSize / blockCount`
+    (`std::length_error`) -/
+def checkParams (P : Params) : String :=
+  if ¬ P.Legal then "E:invalid_argument" else if P.S > sizeMax / P.N then "E:length" else "ok"
+
 def finishOp {α : Type} (s : St) (id : Nat) (P : Params) (o : Outcome α) (show_ : α → String) : St × String :=
   match o with
   | .ok v p evs => (setPool s id P p, s!"{show_ v} | {evStr s.arena evs} | {digest s.arena p}")
@@ -109,6 +119,8 @@ def step (s : St) : List String → St × String
   | ["nb1", base] =>
       let r := newBlock1 s.P (s.arena + int! base)
       (s, s!"{r.1 - s.arena} {r.2}")
+  | ["sizemax"] => (s, toString sizeMax)
+  | ["params", sS, sA, sN] => (s, checkParams ⟨int! sS, int! sA, int! sN, 0⟩)
   -- ---------------- dll suite
   | ["pinit", k] => ({ s with heap := fun _ => ⟨none, none⟩, nodes := nat! k, dead := [] }, "ok")
   | ["pset", i, p, n] =>
